@@ -31,7 +31,7 @@ D0 == [op |-> "", dst |-> 1, src |-> 0, n |-> 0, topo |-> "C", k |-> "x", var |-
        v |-> <<>>, w |-> <<>>, vs |-> <<>>, cs |-> <<>>, gs |-> <<>>]
 Init == /\ prog = <<>> /\ dim = [s \in Slots |-> -1] /\ topo = [s \in Slots |-> "C"]
         /\ anchor = [s \in Slots |-> [i \in 1..MaxDim |-> RE(-1..1)]]
-        /\ phase = "op" /\ cur = "none" /\ focus = 1 /\ nd \in {RE(0..3)} /\ rk \in {RE({"op", "op", "copy"})}
+        /\ phase = "op" /\ cur = "none" /\ focus = 1 /\ nd \in {RE(0..3)} /\ rk \in {IF "chain" \in OpSet THEN "chain" ELSE RE({"op", "op", "copy"})}
 Alive(s) == dim[s] >= 0
 AliveS == {s \in Slots : Alive(s)}
 \* NOTE: a zero-arity definition built from constants only would be evaluated ONCE by TLC and cached; the dummy parameter prevents that
@@ -43,7 +43,9 @@ AnyCon(n) == Mat(<<RE(Coef)>> \o Vec(n))
 ConKinds(t) == IF t = "NNC" THEN {"ge", "ge", "eq", "gt"} ELSE {"ge", "ge", "eq"}
 ConFor(s, n) == CHOOSE c \in {[k |-> k, v |-> IF RE(1..4) <= 3 THEN Friendly(anchor[s], n, k) ELSE AnyCon(n)] : k \in {RE(ConKinds(topo[s]))}} : TRUE
 \* generator near the anchor: points anchor+delta (divisor 1 or 2), rays/lines random
-GenKinds(t) == IF t = "NNC" THEN {"point", "point", "cpoint", "ray", "line"} ELSE {"point", "point", "ray", "line"}
+\* (shape mode: mostly points, so that many elements are bounded and the deduction rules of the weakly relational transformers are reached)
+GenKinds(t) == IF Shape # "poly" THEN {"point", "point", "point", "point", "point", "ray", "line"}
+               ELSE IF t = "NNC" THEN {"point", "point", "cpoint", "ray", "line"} ELSE {"point", "point", "ray", "line"}
 GenOf(kinds, a, n) == LET mk(k, d, t) == [k |-> k, v |-> IF k \in {"point", "cpoint"}
                                    THEN Mat(<<d>> \o [i \in 1..n |-> d * a[i] + RE(-1..1)])
                                    ELSE Mat(<<0>> \o (IF n > 0 /\ \A i \in 1..n : t[i] = 0 THEN [i \in 1..n |-> IF i = 1 THEN 1 ELSE 0] ELSE t))]
@@ -65,7 +67,13 @@ GenOps == {"add_generator", "relation_with_generator"}
 GensOps == {"add_generators"}
 CgOps == {"add_congruence", "refine_with_congruence", "relation_with_congruence"}
 CgsOps == {"add_congruences", "refine_with_congruences"}
-BinMut == {"intersection", "poly_hull", "poly_difference", "time_elapse", "positive_time_elapse", "simplify_using_context", "hull_if_exact", "H79_widening", "BHRZ03_widening"}
+BinMut == {"intersection", "poly_hull", "poly_difference", "time_elapse", "positive_time_elapse", "simplify_using_context", "hull_if_exact"}
+\* widenings and extrapolations (C08): argument slot, optional token counter (mod = 1: a pointer is passed, den = tokens), limiting constraints
+LimOps == {"limited_H79", "limited_BHRZ03", "bounded_H79", "bounded_BHRZ03", "limited_CC76", "limited_BHMZ05"}
+WidOps == IF Shape = "poly" THEN {"H79_widening", "BHRZ03_widening", "limited_H79", "limited_BHRZ03", "bounded_H79", "bounded_BHRZ03"}
+          ELSE IF Shape = "box" THEN {"CC76_widening", "widening", "CC76_narrowing", "limited_CC76"}
+          ELSE IF Shape = "bds" THEN {"CC76_widening", "BHMZ05_widening", "H79_widening", "widening", "CC76_narrowing", "limited_CC76", "limited_BHMZ05", "limited_H79"}
+          ELSE {"CC76_widening", "BHMZ05_widening", "widening", "CC76_narrowing", "limited_CC76", "limited_BHMZ05"}
 PoolOps == {"copy_from", "assign", "swap", "conv_topo", "rebuild", "dumpload", "destroy"}
 UnMut == {"topological_closure"}
 ImgOps == {"affine_image", "affine_preimage", "gen_affine_image", "gen_affine_preimage", "bounded_affine_image", "bounded_affine_preimage"}
@@ -74,9 +82,11 @@ DimUp == {"add_dims_embed", "add_dims_project", "expand", "concatenate"}
 DimDown == {"remove_dims", "remove_higher", "fold"}
 DimOther == {"unconstrain", "unconstrain_set", "map_dims"}
 AllOps == CtorOps \cup UnObs \cup VarObs \cup ExprObs \cup BinObs \cup ConOps \cup ConsOps \cup GenOps \cup GensOps \cup CgOps \cup CgsOps
-          \cup BinMut \cup PoolOps \cup UnMut \cup ImgOps \cup LhsOps \cup DimUp \cup DimDown \cup DimOther
+          \cup BinMut \cup WidOps \cup PoolOps \cup UnMut \cup ImgOps \cup LhsOps \cup DimUp \cup DimDown \cup DimOther
 DriverOps == {"min_constraints", "min_generators", "constraints", "generators", "add_generator", "add_constraint", "is_empty", "contains", "equals", "add_generators", "add_constraints"}
 ShapeDrivers == {"min_constraints", "constraints", "add_constraint", "refine_with_constraint", "is_empty", "contains", "equals", "refine_with_constraints", "is_universe"}
+\* minimized_constraints() is the call that moves a weakly relational element into its reduced internal state: it is drawn half of the time
+ShapeDriver(ok) == IF RE(1..2) = 1 /\ "min_constraints" \in ok THEN "min_constraints" ELSE RE(ok)
 OpOK(op) == IF op \in CtorOps THEN TRUE ELSE AliveS # {}
 (* Recipe mode (state x operation coverage, in the style of one test per transition): slot 1 and slot 2 are built with the
    same dimension and topology, then nd in 0..3 state-driver calls move slot 1's lazy representation, then ONE target
@@ -85,16 +95,23 @@ OpOK(op) == IF op \in CtorOps THEN TRUE ELSE AliveS # {}
 \* two kinds of recipe: "op"  : ctor, ctor, nd drivers on slot 1, target operation on slot 1, two observers;
 \*                        "copy": ctor, ctor, nd drivers on slot 1 (slot 1 may also serve as the const argument of a widening of
 \*                                slot 2), slot 2 := slot 1 by assignment / copy / swap, a mutator on the copy, two observers
-RecipeLen == IF rk = "op" THEN 5 + nd ELSE 6 + nd
+\*                        "chain" (C08, selected by the pseudo-operation "chain" in OpSet): an ascending chain  x_0, x_{k+1} = W(x_k grown, x_k):
+\*                                ctor on slot 1, then 2 + nd times [slot 2 := copy of slot 1; grow slot 1; widen slot 1 with slot 2]
+RecipeLen == IF rk = "op" THEN 5 + nd ELSE IF rk = "chain" THEN 1 + 3 * (2 + nd) ELSE 6 + nd
+GrowOps == {"add_generator", "add_generator", "add_generators", "gen_affine_image", "affine_image", "add_constraint", "unconstrain"} \cap OpSet
 AfterCopy == Recipe /\ rk = "copy" /\ Len(prog) > 2 + nd
 RecipeTargets == (AllOps \cap OpSet) \ (CtorOps \cup {"destroy", "dumpload", "copy_from", "rebuild", "conv_topo", "swap", "assign"})
 RecipeOp == LET L == Len(prog) IN
-            IF L = 0 THEN RE({"from_cs", "from_gs", "from_cs"})
+            IF rk = "chain" THEN (IF L = 0 THEN RE({"from_cs", "from_gs", "from_gs"} \cap OpSet)
+                                  ELSE IF (L - 1) % 3 = 0 THEN "copy_from"
+                                  ELSE IF (L - 1) % 3 = 1 THEN RE(IF GrowOps = {} THEN {"refine_with_constraint"} ELSE GrowOps)
+                                  ELSE RE(WidOps \cap OpSet))
+            ELSE IF L = 0 THEN RE({"from_cs", "from_gs", "from_cs"})
             ELSE IF L = 1 THEN RE({"from_cs", "from_gs", "new"})
-            ELSE IF L < 2 + nd THEN (IF rk = "copy" /\ RE(1..4) = 1 /\ Shape = "poly" THEN "H79_widening" ELSE RE(IF Shape = "poly" THEN DriverOps ELSE ShapeDrivers))
+            ELSE IF L < 2 + nd THEN (IF rk = "copy" /\ RE(1..4) = 1 /\ Shape = "poly" THEN "H79_widening" ELSE IF Shape = "poly" THEN RE(DriverOps) ELSE ShapeDriver(ShapeDrivers))
             ELSE IF rk = "op" THEN (IF L = 2 + nd THEN RE(RecipeTargets) ELSE IF L = 3 + nd THEN "min_constraints" ELSE IF Shape = "poly" THEN "min_generators" ELSE "is_empty")
             ELSE IF L = 2 + nd THEN RE({"assign", "assign", "copy_from", "swap"})
-            ELSE IF L = 3 + nd THEN RE(RecipeTargets \cap (ConOps \cup ConsOps \cup GenOps \cup GensOps \cup BinMut \cup UnMut \cup ImgOps \cup DimUp \cup DimDown \cup DimOther))
+            ELSE IF L = 3 + nd THEN RE(RecipeTargets \cap (ConOps \cup ConsOps \cup GenOps \cup GensOps \cup BinMut \cup WidOps \cup UnMut \cup ImgOps \cup DimUp \cup DimDown \cup DimOther))
             ELSE IF L = 4 + nd THEN "min_constraints" ELSE IF Shape = "poly" THEN "min_generators" ELSE "is_empty"
 ChooseOp == /\ phase = "op" /\ Len(prog) < (IF Recipe THEN RecipeLen ELSE MaxLen)
             /\ LET ok == {o \in (AllOps \cap OpSet) : OpOK(o)} IN
@@ -118,7 +135,7 @@ Args ==
   /\ phase = "args" /\ phase' = "op" /\ cur' = "none"
   \* locality: two calls in three go to the slot used last, so that sequences of calls build up state on one object
   /\ UNCHANGED <<nd, rk>>
-  /\ \E s0 \in {IF Recipe THEN (IF Len(prog) = 1 \/ AfterCopy \/ (rk = "copy" /\ cur \in {"H79_widening", "assign", "copy_from", "swap"}) THEN 2 ELSE 1) ELSE IF AliveS = {} THEN focus ELSE IF Alive(focus) /\ RE(1..3) <= 2 THEN focus ELSE RE(AliveS)} : focus' = s0 /\
+  /\ \E s0 \in {IF Recipe THEN (IF Len(prog) = 1 \/ AfterCopy \/ (rk = "copy" /\ cur \in {"H79_widening", "assign", "copy_from", "swap"}) THEN (IF rk = "chain" /\ Len(prog) = 1 THEN 1 ELSE 2) ELSE 1) ELSE IF AliveS = {} THEN focus ELSE IF Alive(focus) /\ RE(1..3) <= 2 THEN focus ELSE RE(AliveS)} : focus' = s0 /\
      \E ill \in {IF Recipe /\ Len(prog) < 2 + nd THEN FALSE ELSE Ill(Len(prog))} :
      \/ /\ cur \in CtorOps
         /\ \E s \in {IF Recipe \/ RE(1..2) = 1 THEN s0 ELSE RE(Slots)} :
@@ -144,6 +161,11 @@ Args ==
      \/ /\ cur \in BinObs \cup BinMut
         /\ \E s \in {s0} : \E t \in {LET c == {t \in AliveS : dim[t] = dim[s] /\ (ill \/ cur \in {"contains", "is_disjoint_from", "time_elapse"} \/ topo[t] = topo[s])} IN IF Recipe /\ Alive(3 - s) THEN 3 - s ELSE IF ill \/ c = {} THEN RE(AliveS) ELSE RE(c)} :
              Emit([D0 EXCEPT !.op = cur, !.dst = s, !.src = t, !.n = dim[s], !.topo = topo[s], !.var = RE(0..1)]) /\ Keep
+     \/ /\ cur \in WidOps
+        /\ \E s \in {s0} : \E t \in {LET c == {t \in AliveS : dim[t] = dim[s] /\ (ill \/ topo[t] = topo[s])} IN IF Recipe /\ Alive(3 - s) THEN 3 - s ELSE IF ill \/ c = {} THEN RE(AliveS) ELSE RE(c)} :
+           \E cnt \in {IF cur \in LimOps THEN RE(0..2) ELSE 0} :
+             Emit([D0 EXCEPT !.op = cur, !.dst = s, !.src = t, !.n = dim[s], !.topo = topo[s], !.var = RE(0..3), !.mod = RE({0, 0, 1}), !.den = RE(0..2),
+                              !.cs = RandSeq(cnt, LAMBDA i : ConFor(s, dim[s]))]) /\ Keep
      \/ /\ cur \in ConOps
         /\ \E s \in {s0} : \E n \in {IF ill /\ RE(1..2) = 1 THEN dim[s] + 1 ELSE dim[s]} :
            \E c \in {IF ill THEN RawCon(n) ELSE ConFor(s, n)} :
@@ -175,7 +197,7 @@ Args ==
                                        relk == IF topo[s] = "NNC" \/ ill THEN {"le", "eq", "ge", "lt", "gt"} ELSE {"le", "eq", "ge"} IN
              Emit([D0 EXCEPT !.op = cur, !.dst = s, !.n = n, !.topo = topo[s], !.k = RE(relk),
                               !.var = IF (ill /\ RE(1..3) = 1) \/ n = 0 THEN n ELSE RE(0..(n-1)),
-                              !.den = IF ill /\ RE(1..3) = 1 THEN 0 ELSE RE({-2, -1, 1, 1, 2}),
+                              !.den = IF ill /\ RE(1..3) = 1 THEN 0 ELSE RE({-5, -4, -3, -2, -1, 1, 1, 2, 3, 4, 5}),
                               !.v = AnyCon(IF ill /\ RE(1..3) = 1 THEN n + 1 ELSE n), !.w = AnyCon(n)]) /\ Keep
      \/ /\ cur \in DimUp
         /\ \E s \in {s0} : \E t \in {IF Recipe /\ Alive(3 - s) THEN 3 - s ELSE RE(AliveS)} : \E add \in {IF cur = "concatenate" THEN dim[t] ELSE RE(0..2)} :
